@@ -26,6 +26,7 @@ REQUIRED_THEOREMS = [
     "TapkeeVerif.Knn.CoverQuery.batchCreate_wf",
     "TapkeeVerif.Knn.CoverQuery.cover_tree_end_to_end",
     "TapkeeVerif.Knn.CoverQuery.cover_top_uncovered_drops",
+    "TapkeeVerif.Knn.CoverQuery.batchCreate_fuel_suffices",
 ]
 METHODS = ["brute", "vptree", "covertree"]
 
@@ -148,6 +149,11 @@ def classify(c, io, mf):
         if mf.get("bh") != "ok":
             return ("broken", "cover-build-hypothesis:%s" % mf.get("bh"), "the values of dist_of_scale the real code computed "
                     "violate the hypothesis of batchCreate_wf (%s: a negative dist_of_scale)" % mf.get("bh"))
+        if mf.get("bf") != "ok":
+            return ("broken", "cover-build-hypothesis:scales-%s" % mf.get("bf"), "the values of get_scale / dist_of_scale the real code "
+                    "computed violate the hypothesis ScalesOk of batchCreate_fuel_suffices (%s: table = the harness did not tabulate "
+                    "exactly the positive distances of the model, bracket = dist_of_scale(min scale - 3) < d <= dist_of_scale(max "
+                    "scale + 1) fails for a distance d)" % mf.get("bf"))
         if mf["bt"] != "ok" or mf.get("bls") != "ok":
             return ("broken", "corr:cover-build", "Lean model of batch_create (batch_insert / split / dist_split / max_set / "
                     "set_leaf_scale, scale functions as computed by the real code) builds a tree different from the real one "
